@@ -28,6 +28,72 @@ var deviceFuncNames = []string{"NoteOn", "NoteOff", "AnalogNoteOn", "AnalogNoteO
 	"Panic", "OctaveUp", "OctaveDown", "OctaveReset", "SemitoneUp", "SemitoneDown", "SemitoneReset", "MappingUp", "MappingDown", "MappingReset",
 	"ChannelUp", "ChannelDown", "ChannelReset", "Multinote", "CCLearningOn", "CCLearningOff", "logFields"}
 
+// deviceKnownNames: the functions of package device on the reference tree.  A function of that package whose name is not
+// listed is a helper introduced by a later refactoring; the path rules see through it (inline it) instead of treating
+// it as an opaque call, so that extracting part of a handler into a helper does not change what a rule observes.
+var deviceKnownNames = map[string]bool{"AnalogNoteOff": true, "AnalogNoteOn": true, "CCLearningOff": true, "CCLearningOn": true, "ChannelDown": true,
+	"ChannelReset": true, "ChannelUp": true, "MappingDown": true, "MappingReset": true, "MappingUp": true, "Multinote": true, "NewDevice": true,
+	"NewDeviceLedStrip": true, "NoteOff": true, "NoteOn": true, "OctaveDown": true, "OctaveReset": true, "OctaveUp": true, "Panic": true,
+	"ProcessEvents": true, "SemitoneDown": true, "SemitoneReset": true, "SemitoneUp": true, "State": true, "Status": true, "checkDoubleActions": true,
+	"checkExitSequence": true, "findController": true, "handleABSEvent": true, "handleInputEvents": true, "handleKEYEvent": true, "handleOpenrgb": true,
+	"init": true, "invokeActionPress": true, "invokeActionRelease": true, "key": true, "logFields": true, "processEvent": true, "readN": true,
+	"resolveHidraw": true, "shiftColor": true, "valueToColor": true, "setActionLed": true}
+
+// newHelpers: named functions of package device that the reference tree does not have.
+func (d *dev) newHelpers() map[*ssa.Function]bool {
+	out := map[*ssa.Function]bool{}
+	for _, f := range d.p.Funcs {
+		if f.Parent() != nil || f.Pkg == nil || f.Pkg.Pkg.Path() != pkgDevice || len(f.Blocks) == 0 || f.Synthetic != "" {
+			continue
+		}
+		if !deviceKnownNames[f.Name()] {
+			out[f] = true
+		}
+	}
+	return out
+}
+
+// ownerOf: the known function on whose behalf fn runs: fn itself, or - for a newly extracted helper all of whose static
+// call sites lie in (helpers of) one known function - that function.  Writer tables attribute a helper's writes to it.
+func (d *dev) ownerOf(fn *ssa.Function) *ssa.Function {
+	helpers := d.newHelpers()
+	var rec func(f *ssa.Function, depth int) *ssa.Function
+	rec = func(f *ssa.Function, depth int) *ssa.Function {
+		top := topFunc(f)
+		if !helpers[top] || depth > 3 {
+			return top
+		}
+		sites, ok := staticCallSites(d.p, top)
+		if !ok {
+			return top
+		}
+		var owner *ssa.Function
+		for _, ci := range sites {
+			o := rec(ci.Parent(), depth+1)
+			if owner != nil && o != owner {
+				return top
+			}
+			owner = o
+		}
+		if owner == nil {
+			return top
+		}
+		return owner
+	}
+	return rec(fn, 0)
+}
+
+// withHelpers adds the new helpers of package device (and the pure value helpers) to an inline set.
+func (d *dev) withHelpers(only map[*ssa.Function]bool) map[*ssa.Function]bool {
+	for f := range d.newHelpers() {
+		only[f] = true
+	}
+	for f := range pureHelpers(d.p) {
+		only[f] = true
+	}
+	return only
+}
+
 func newDev(c *Ctx, rule string) *dev {
 	d := &dev{c: c, p: c.P, fields: map[string]*types.Var{}, fn: map[string]*ssa.Function{}, cfgField: map[string]*types.Var{}, ctors: map[*ssa.Function]bool{}}
 	d.ok = true
